@@ -42,7 +42,8 @@ m = {
                            "0783417 verif hook: reset.serverCleared pause point (no-op without the verif build tag)",
                            "8d65690 verif hook: rapi.next pause point at the top of the /runtime/invocation/next handler (no-op without the verif build tag)",
                            "93e7b60 verif hook: fastinvoke.success pause point (no-op without the verif build tag)",
-                           "46aff5c verif hook: frontend.lazyInit pause point (no-op without the verif build tag)"],
+                           "46aff5c verif hook: frontend.lazyInit pause point (no-op without the verif build tag)",
+                           "20df65a verif hook: pause point invoke.released (after a successful AwaitRelease, before Invoke's own Release)"],
         "add_only": True,
     },
     "engines": engines,
